@@ -189,6 +189,13 @@ func (m *vpC19Machine) drawSnapshot(t *rapid.T) (*common.Snapshot, string) {
 		m.classes["offer:tx-reuse"]++
 	}
 	s.Hash = s.PayloadHash()
+	// hashing sorts the list in place; the round's rules are about the set of
+	// transactions, so the order a caller happens to hold must not matter
+	if len(s.Transactions) >= 2 && rapid.IntRange(0, 2).Draw(t, "tx_order") == 0 {
+		perm := rapid.Permutation(append([]crypto.Hash{}, s.Transactions...)).Draw(t, "tx_perm")
+		s.Transactions = perm
+		m.classes["offer:tx-order-shuffled"]++
+	}
 	if kind == 1 && len(m.offered) > 0 {
 		// a different payload carrying an already offered hash
 		s.Hash = m.offered[rapid.IntRange(0, len(m.offered)-1).Draw(t, "forge")].Hash
